@@ -1,7 +1,7 @@
 import Reduino.Lang.Render
 import Reduino.Lang.InF
 import Reduino.Lemmas.C01d
-/- C01 helpers, part e: lock-step simulation of nested statements -/
+/- C01 helpers, part e: lock-step simulation of nested statements (W6: the frame of a call — `evalArgs_sim`, `Rel_setAll`, `funDecls_prefix`) -/
 namespace Reduino.Lemmas.C01
 open Reduino.Lang
 
